@@ -9,43 +9,58 @@ import (
 	"golang.org/x/tools/go/ssa"
 )
 
+// Stub file system: a finite set of nodes keyed by path byte-terms (paths may be symbolic), an event log of every
+// mutating call, a table of open handles. Paths arrive already cleaned because path/filepath is executed, not stubbed.
+
+const fsRootStr = "/w/a/b/c/dest" // the destination directory of the symbolic world; natively $VERIF_WORK/a/b/c/dest
+
 type fsNode struct {
-	pre     bool
-	isDir   bool
-	content []*Term
+	key      []*Term
+	pre      bool // existed before the code under test ran
+	isDir    bool
+	removed  bool
+	modified bool // truncated, written or removed
+	content  []*Term
+	id       int
+	sym      bool // created by the symbolic-exists oracle (goes into the replay environment)
 }
 
 type FileObj struct {
-	path   string
 	node   *fsNode
 	pos    int
 	closed bool
 	id     int
+	write  bool
 }
 
-type fsEnt struct {
-	key  []*Term
+type fsEvent struct {
+	op   string // create open-write mkdir remove truncate write
+	path []*Term
 	node *fsNode
 }
 
+type takenRule struct{ dir, name []*Term }
+
 type fsState struct {
-	ents    []fsEnt
-	evPaths []Str
-	evPre   []bool
+	ents    []*fsNode
 	absent  [][]*Term
 	symEx   bool
-	nodes   map[string]*fsNode
+	symMax  int // at most this many unknown paths pre-exist (-1 = unbounded)
+	nsym    int
+	armed   bool
 	handles []*FileObj
-	events  []string
+	events  []fsEvent
+	taken   []takenRule
 	tokens  map[string]Value // codec / json tokens
 	ntok    int
+	opens   int
 }
 
 func (ex *Exec) fs() *fsState {
 	if s, ok := ex.side["fs"]; ok {
 		return s.(*fsState)
 	}
-	s := &fsState{nodes: map[string]*fsNode{}, tokens: map[string]Value{}}
+	s := &fsState{tokens: map[string]Value{}}
 	ex.side["fs"] = s
 	return s
 }
@@ -57,6 +72,8 @@ func (ex *Exec) concreteStr(v Value) string {
 		bs = x.b
 	case Slice:
 		bs = ex.bytesOf(x)
+	case Rope:
+		bs = ex.pathTerms(x)
 	}
 	out := make([]byte, len(bs))
 	for i, b := range bs {
@@ -85,36 +102,81 @@ func (ex *Exec) pathTerms(v Value) []*Term {
 	return ex.bytesOf(v)
 }
 
+func (ex *Exec) termsEq(a, b []*Term) *Term {
+	if len(a) != len(b) {
+		return ex.ts.F
+	}
+	c := ex.ts.T
+	for i := range a {
+		c = ex.ts.And(c, ex.ts.Eq(a[i], b[i]))
+	}
+	return c
+}
+
+func (ex *Exec) constTerms(s string) []*Term { return ex.strConst(s).b }
+
+// hasPrefixSlash: p == pre or p starts with pre + "/"
+func (ex *Exec) underOrEqual(p, pre []*Term) *Term {
+	if len(p) < len(pre) {
+		return ex.ts.F
+	}
+	c := ex.termsEq(p[:len(pre)], pre)
+	if len(p) == len(pre) {
+		return c
+	}
+	return ex.ts.And(c, ex.ts.Eq(p[len(pre)], ex.ts.Const(8, '/')))
+}
+
 func (ex *Exec) fsFind(p []*Term) *fsNode {
 	s := ex.fs()
 	for _, e := range s.ents {
-		if len(e.key) != len(p) {
+		if e.removed || len(e.key) != len(p) {
 			continue
 		}
-		c := ex.ts.T
-		for i := range p {
-			c = ex.ts.And(c, ex.ts.Eq(p[i], e.key[i]))
-		}
-		if ex.decide(c) {
-			return e.node
+		if ex.decide(ex.termsEq(p, e.key)) {
+			return e
 		}
 	}
 	for _, a := range s.absent {
 		if len(a) != len(p) {
 			continue
 		}
-		c := ex.ts.T
-		for i := range p {
-			c = ex.ts.And(c, ex.ts.Eq(p[i], a[i]))
-		}
-		if ex.decide(c) {
+		if ex.decide(ex.termsEq(p, a)) {
 			return nil
 		}
 	}
+	for _, r := range s.taken {
+		// dir + "/" + name  or  dir + "/" + name + "." + anything
+		base := append(append(append([]*Term{}, r.dir...), ex.ts.Const(8, '/')), r.name...)
+		if len(p) < len(base) {
+			continue
+		}
+		c := ex.termsEq(p[:len(base)], base)
+		if len(p) > len(base) {
+			c = ex.ts.And(c, ex.ts.Eq(p[len(base)], ex.ts.Const(8, '.')))
+		}
+		if ex.decide(c) {
+			n := &fsNode{key: p, pre: true}
+			ex.fsPut(n)
+			return n
+		}
+	}
 	if s.symEx {
+		// keep the unknown pre-state consistent: nothing exists below an absent path or below a file
+		if par := ex.fsParent(p); par != nil {
+			if pn := ex.fsFind(par); pn == nil || !pn.isDir || !pn.pre {
+				s.absent = append(s.absent, p)
+				return nil
+			}
+		}
+		if s.symMax >= 0 && s.nsym >= s.symMax {
+			s.absent = append(s.absent, p)
+			return nil
+		}
 		if ex.decide(ex.nondet(BoolSort)) {
-			n := &fsNode{pre: true, isDir: ex.decide(ex.nondet(BoolSort))}
-			ex.fsPut(p, n)
+			s.nsym++
+			n := &fsNode{key: p, pre: true, sym: true, isDir: ex.decide(ex.nondet(BoolSort))}
+			ex.fsPut(n)
 			return n
 		}
 		s.absent = append(s.absent, p)
@@ -122,9 +184,19 @@ func (ex *Exec) fsFind(p []*Term) *fsNode {
 	return nil
 }
 
-func (ex *Exec) fsPut(p []*Term, n *fsNode) {
+func (ex *Exec) fsPut(n *fsNode) {
 	s := ex.fs()
-	s.ents = append(s.ents, fsEnt{p, n})
+	n.id = len(s.ents)
+	s.ents = append(s.ents, n)
+}
+
+func (ex *Exec) fsParent(p []*Term) []*Term {
+	for i := len(p) - 1; i > 0; i-- {
+		if ex.decide(ex.ts.Eq(p[i], ex.ts.Const(8, '/'))) {
+			return p[:i]
+		}
+	}
+	return nil // parent is "/" (or relative): treated as existing
 }
 
 func (s *fsState) openCount() int {
@@ -143,13 +215,26 @@ func (ex *Exec) fsErr(kind string) Value { return Iface{t: errorT, v: ex.opaque(
 
 type FileInfoObj struct{ node *fsNode }
 
-func (ex *Exec) fsIntrinsic(fn *ssa.Function, name string, args []Value) (Value, bool) {
+var fileInfoT = types.NewPointer(types.NewNamed(types.NewTypeName(0, nil, "fileInfoModel", nil), types.NewStruct(nil, nil), nil))
+
+func (ex *Exec) fsEvent(op string, p []*Term, n *fsNode) {
 	s := ex.fs()
+	s.events = append(s.events, fsEvent{op, p, n})
+	if n != nil && (op == "truncate" || op == "write" || op == "remove") {
+		n.modified = true
+	}
+}
+
+func (ex *Exec) ioEOF() Value {
+	return ex.load(Ptr{loc: ex.globalLoc(ex.extGlobal("io", "EOF"))}, nil)
+}
+
+func (ex *Exec) fsIntrinsic(fn *ssa.Function, name string, args []Value) (Value, bool) {
 	switch name {
-	case "os.Stat":
+	case "os.Stat", "os.Lstat":
 		p := ex.pathTerms(args[0])
 		if n := ex.fsFind(p); n != nil {
-			return Tuple{Iface{t: types.NewPointer(types.Typ[types.Int]), v: &FileInfoObj{n}}, Iface{}}, true
+			return Tuple{Iface{t: fileInfoT, v: &FileInfoObj{n}}, Iface{}}, true
 		}
 		return Tuple{Iface{}, ex.fsErr("notexist")}, true
 	case "os.IsNotExist":
@@ -158,54 +243,125 @@ func (ex *Exec) fsIntrinsic(fn *ssa.Function, name string, args []Value) (Value,
 		return ex.ts.Bool(o != nil && o.name == "fserr:notexist"), true
 	case "os.MkdirAll":
 		p := ex.pathTerms(args[0])
-		s.evPaths = append(s.evPaths, Str{p})
-		ex.fsPut(p, &fsNode{isDir: true})
+		// every proper prefix ending before a '/' must be a directory or absent (then created)
+		for i := 1; i <= len(p); i++ {
+			if i < len(p) && !ex.decide(ex.ts.Eq(p[i], ex.ts.Const(8, '/'))) {
+				continue
+			}
+			pre := p[:i]
+			n := ex.fsFind(pre)
+			if n == nil {
+				n = &fsNode{key: pre, isDir: true}
+				ex.fsPut(n)
+				ex.fsEvent("mkdir", pre, n)
+			} else if !n.isDir {
+				return ex.fsErr("notdir"), true
+			}
+		}
+		return Iface{}, true
+	case "os.RemoveAll", "os.Remove":
+		s := ex.fs()
+		p := ex.pathTerms(args[0])
+		n := ex.fsFind(p)
+		if n == nil {
+			if name == "os.Remove" {
+				return ex.fsErr("notexist"), true
+			}
+			return Iface{}, true
+		}
+		n.removed = true
+		ex.fsEvent("remove", p, n)
+		for _, e := range s.ents {
+			if !e.removed && len(e.key) > len(p) && ex.decide(ex.underOrEqual(e.key, p)) {
+				e.removed = true
+				e.modified = true
+			}
+		}
 		return Iface{}, true
 	case "os.OpenFile", "os.Open":
+		s := ex.fs()
 		pt := ex.pathTerms(args[0])
-		p := fmt.Sprint(len(s.handles))
 		flag := uint64(0)
 		if name == "os.OpenFile" {
 			flag = ex.concretize(args[1].(*Term))
 		}
+		write := flag&3 != 0
 		n := ex.fsFind(pt)
-		if flag&0x40 != 0 {
-			s.evPaths = append(s.evPaths, Str{pt})
-			s.evPre = append(s.evPre, n != nil && n.pre)
-		}
 		if n == nil {
-			if flag&0x40 == 0 { // O_CREATE
-				return Tuple{Ptr{}, ex.fsErr("notexist")}, true
+			if flag&0x40 == 0 { // no O_CREATE
+				return Tuple{(*FileObj)(nil), ex.fsErr("notexist")}, true
 			}
-			n = &fsNode{}
-			ex.fsPut(pt, n)
+			if par := ex.fsParent(pt); par != nil {
+				pn := ex.fsFind(par)
+				if pn == nil {
+					return Tuple{(*FileObj)(nil), ex.fsErr("notexist")}, true
+				}
+				if !pn.isDir {
+					return Tuple{(*FileObj)(nil), ex.fsErr("notdir")}, true
+				}
+			}
+			n = &fsNode{key: pt}
+			ex.fsPut(n)
+			ex.fsEvent("create", pt, n)
+		} else {
+			if n.isDir && write {
+				return Tuple{(*FileObj)(nil), ex.fsErr("isdir")}, true
+			}
+			if write {
+				ex.fsEvent("open-write", pt, n)
+			}
+			if flag&0x200 != 0 { // O_TRUNC
+				n.content = nil
+				ex.fsEvent("truncate", pt, n)
+			}
 		}
-		if n.isDir {
-			return Tuple{Ptr{}, ex.fsErr("isdir")}, true
-		}
-		if flag&0x200 != 0 { // O_TRUNC
-			n.content = nil
-		}
-		h := &FileObj{path: p, node: n, id: len(s.handles)}
+		h := &FileObj{node: n, id: len(s.handles), write: write}
 		s.handles = append(s.handles, h)
+		s.opens++
 		return Tuple{h, Iface{}}, true
 	case "(*os.File).Close":
 		h := args[0].(*FileObj)
+		if h == nil {
+			return ex.fsErr("invalid"), true
+		}
+		if h.closed {
+			return ex.fsErr("closed"), true
+		}
 		h.closed = true
 		return Iface{}, true
 	case "(*os.File).Write":
 		h := args[0].(*FileObj)
+		if h == nil || h.closed {
+			return Tuple{ex.ts.Const(64, 0), ex.fsErr("closed")}, true
+		}
 		b := ex.bytesOf(args[1])
-		h.node.content = append(h.node.content[:minI(h.pos, len(h.node.content))], b...)
+		c := h.node.content
+		for len(c) < h.pos {
+			c = append(c, ex.ts.Const(8, 0))
+		}
+		nc := append(append([]*Term{}, c[:h.pos]...), b...)
+		if h.pos+len(b) < len(c) {
+			nc = append(nc, c[h.pos+len(b):]...)
+		}
+		h.node.content = nc
 		h.pos += len(b)
+		if len(b) > 0 {
+			ex.fsEvent("write", h.node.key, h.node)
+		}
 		return Tuple{ex.ts.Const(64, uint64(len(b))), Iface{}}, true
 	case "(*os.File).Read":
 		h := args[0].(*FileObj)
+		if h == nil || h.closed {
+			return Tuple{ex.ts.Const(64, 0), ex.fsErr("closed")}, true
+		}
 		dst := args[1].(Slice)
 		n := int(ex.concretize(dst.len))
 		avail := len(h.node.content) - h.pos
+		if n == 0 {
+			return Tuple{ex.ts.Const(64, 0), Iface{}}, true
+		}
 		if avail <= 0 {
-			return Tuple{ex.ts.Const(64, 0), ex.load(Ptr{loc: ex.globalLoc(ex.extGlobal("io", "EOF"))}, nil)}, true
+			return Tuple{ex.ts.Const(64, 0), ex.ioEOF()}, true
 		}
 		if n > avail {
 			n = avail
@@ -215,10 +371,46 @@ func (ex *Exec) fsIntrinsic(fn *ssa.Function, name string, args []Value) (Value,
 		}
 		h.pos += n
 		return Tuple{ex.ts.Const(64, uint64(n)), Iface{}}, true
+	case "(*os.File).Seek":
+		h := args[0].(*FileObj)
+		off := int(int64(ex.concretize(args[1].(*Term))))
+		wh := ex.concretize(args[2].(*Term))
+		switch wh {
+		case 0:
+			h.pos = off
+		case 1:
+			h.pos += off
+		case 2:
+			h.pos = len(h.node.content) + off
+		}
+		if h.pos < 0 {
+			h.pos = 0
+			return Tuple{ex.ts.Const(64, 0), ex.fsErr("invalid")}, true
+		}
+		return Tuple{ex.ts.Const(64, uint64(h.pos)), Iface{}}, true
+	case "(*os.File).Truncate":
+		h := args[0].(*FileObj)
+		sz := int(int64(ex.concretize(args[1].(*Term))))
+		if sz < 0 {
+			return ex.fsErr("invalid"), true
+		}
+		c := h.node.content
+		for len(c) < sz {
+			c = append(c, ex.ts.Const(8, 0))
+		}
+		if sz != len(h.node.content) {
+			ex.fsEvent("truncate", h.node.key, h.node)
+		}
+		h.node.content = c[:sz]
+		return Iface{}, true
+	case "(*os.File).Stat":
+		h := args[0].(*FileObj)
+		return Tuple{Iface{t: fileInfoT, v: &FileInfoObj{h.node}}, Iface{}}, true
 	}
 	if fn.Pkg == ex.pkg {
+		s := ex.fs()
 		switch fn.Name() {
-		case "encodeString":
+		case "encodeString", "encodeBytes":
 			s.ntok++
 			tok := fmt.Sprintf("H%d", s.ntok)
 			s.tokens[tok] = args[0]
@@ -228,12 +420,40 @@ func (ex *Exec) fsIntrinsic(fn *ssa.Function, name string, args []Value) (Value,
 			if !ok {
 				return Tuple{ex.zero(types.NewSlice(types.Typ[types.Byte])), ex.fsErr("decode")}, true
 			}
-			return Tuple{ex.mkByteSlice(v.(Str).b), Iface{}}, true
+			return Tuple{ex.mkByteSlice(ex.bytesOf(v)), Iface{}}, true
+		case "verifFSRoot":
+			if !s.armed && len(s.ents) == 0 {
+				r := fsRootStr
+				for i := 1; i <= len(r); i++ {
+					if i == len(r) || r[i] == '/' {
+						ex.fsPut(&fsNode{key: ex.constTerms(r[:i]), isDir: true, pre: true})
+					}
+				}
+			}
+			return ex.strConst(fsRootStr), true
 		case "verifFSAddFile":
-			ex.fsPut(ex.pathTerms(args[0]), &fsNode{content: ex.bytesOf(args[1])})
+			ex.fsPut(&fsNode{key: ex.pathTerms(args[0]), content: ex.bytesOf(args[1]), pre: true})
 			return nil, true
 		case "verifFSAddDir":
-			ex.fsPut(ex.pathTerms(args[0]), &fsNode{isDir: true})
+			ex.fsPut(&fsNode{key: ex.pathTerms(args[0]), isDir: true, pre: true})
+			return nil, true
+		case "verifFSTakeAllNames":
+			s.taken = append(s.taken, takenRule{ex.pathTerms(args[0]), ex.pathTerms(args[1])})
+			return nil, true
+		case "verifFSSymbolicExists":
+			s.symEx = true
+			s.symMax = -1
+			if v, ok := ex.bounds["EXISTS"]; ok {
+				s.symMax = int(v)
+			}
+			return nil, true
+		case "verifFSBegin":
+			s.armed = true
+			s.events = nil
+			for _, e := range s.ents {
+				e.pre = true
+				e.modified = false
+			}
 			return nil, true
 		case "verifFSContent":
 			n := ex.fsFind(ex.pathTerms(args[0]))
@@ -251,35 +471,46 @@ func (ex *Exec) fsIntrinsic(fn *ssa.Function, name string, args []Value) (Value,
 				}
 			}
 			return ex.ts.Const(64, k), true
-		case "verifFSSymbolicExists":
-			s.symEx = true
-			return nil, true
-		case "verifFSEventPre":
-			return ex.ts.Bool(s.evPre[int(ex.concretize(args[0].(*Term)))]), true
-		case "verifFSEvents":
-			return ex.ts.Const(64, uint64(len(s.evPaths))), true
-		case "verifFSEventPath":
-			return s.evPaths[int(ex.concretize(args[0].(*Term)))], true
+		case "verifFSEscaped":
+			// a mutating event on a path that is neither the destination nor below it
+			root := ex.constTerms(fsRootStr)
+			r := ex.ts.F
+			for _, e := range s.events {
+				r = ex.ts.Or(r, ex.ts.Not(ex.underOrEqual(e.path, root)))
+			}
+			return r, true
+		case "verifFSPreTouched":
+			for _, e := range s.ents {
+				if e.pre && e.modified {
+					return ex.ts.T, true
+				}
+			}
+			return ex.ts.F, true
+		case "verifFSMutations":
+			return ex.ts.Const(64, uint64(len(s.events))), true
 		case "verifFSOpenHandles":
 			return ex.ts.Const(64, uint64(s.openCount())), true
-		case "verifFSCount":
-			return ex.ts.Const(64, uint64(len(s.nodes))), true
 		}
 	}
 	switch name {
 	case "encoding/json.Marshal":
+		s := ex.fs()
 		src := args[0].(Iface).v.(Ptr).loc.(*StructObj)
 		s.ntok++
 		tok := fmt.Sprintf("J%d", s.ntok)
 		s.tokens[tok] = ex.cloneLoc(src)
 		return Tuple{ex.mkByteSlice(ex.strConst(tok).b), Iface{}}, true
 	case "encoding/json.Unmarshal":
+		s := ex.fs()
 		v, ok := s.tokens[ex.concreteStr(args[0])]
 		if !ok {
 			return ex.fsErr("json"), true
 		}
 		dst := args[1].(Iface).v.(Ptr).loc.(*StructObj)
-		srcObj := v.(*StructObj)
+		srcObj, ok := v.(*StructObj)
+		if !ok || len(srcObj.fields) != len(dst.fields) {
+			return ex.fsErr("json"), true
+		}
 		for i := range dst.fields {
 			tag := reflect.StructTag(dst.typ.Tag(i)).Get("json")
 			if tag == "-" {
@@ -299,11 +530,50 @@ func minI(a, b int) int {
 	return b
 }
 
-func (s *fsState) dump() []string {
-	var ks []string
-	for k := range s.nodes {
-		ks = append(ks, k)
+// ---- environment capture for native replay: the pre-existing file-system state under the model
+
+type FSPre struct {
+	Path    string `json:"path"` // hex
+	Dir     bool   `json:"dir"`
+	Content string `json:"content"` // hex
+}
+
+// envTerms returns the terms whose model values describe the environment (stub FS pre-state).
+func (ex *Exec) envTerms() []*Term {
+	s, ok := ex.side["fs"].(*fsState)
+	if !ok {
+		return nil
 	}
-	sort.Strings(ks)
-	return ks
+	var ts []*Term
+	for _, e := range s.ents {
+		if !e.sym {
+			continue
+		}
+		for _, t := range e.key {
+			if !t.IsConst() {
+				ts = append(ts, t)
+			}
+		}
+	}
+	return ts
+}
+
+func (ex *Exec) buildEnv(val func(*Term) uint64) []FSPre {
+	s, ok := ex.side["fs"].(*fsState)
+	if !ok {
+		return nil
+	}
+	var out []FSPre
+	for _, e := range s.ents {
+		if !e.sym {
+			continue
+		}
+		p := make([]byte, len(e.key))
+		for i, t := range e.key {
+			p[i] = byte(val(t))
+		}
+		out = append(out, FSPre{Path: fmt.Sprintf("%x", p), Dir: e.isDir})
+	}
+	sort.Slice(out, func(i, j int) bool { return len(out[i].Path) < len(out[j].Path) })
+	return out
 }
